@@ -97,7 +97,7 @@ NAME_POOL = [
     (b'new\nline', b'cr\rhere'), (b'100%', b'%41'), (b'plus+', b'eq=x'), (b'[br', b'st*r'),
     (b'q?', b'#hash'), (b'caf\xc3\xa9', b'\xe6\x97\xa5\xe6\x9c\xac'), (b'x.trashinfo', b'y.trashinfo.trashinfo'),
     (b'Foo', b'foo'), (b'a_1', b'a'), (b'tab\there', b"quote'\""), (b'L' * 200, b'M' * 120),
-    (b'.hidden', b'..dots'), (b'tilde~', b'back\\slash'),
+    (b'.hidden', b'..dots'), (b'tilde~', b'back\\slash'), (b'notes\n', b'x\n\n'), (b'.env', b'.config.d'),
 ]
 NAME_POOL_NONUTF8 = [(b'bad\xff', b'ok'), (b'\xfe\xfd', b'\xc3')]
 
@@ -271,6 +271,8 @@ class World(object):
         p = self.tpath(t)
         if tkind(t) == 't1' and self.cfg['top'].get(treg(t), 'absent').startswith('link'):
             return os.path.join(self.rpath(treg(t)), '.realtrash', str(self.conc.uid))
+        if tkind(t) == 'home' and self.cfg.get('hlink', 'none') != 'none':
+            return os.path.join(self.rpath(self.cfg['hlink']), '.xdg-remote', 'Trash')
         if tkind(t) == 'home' and self.cfg['xdg'] == 'set' and self.conc.xdg_link:
             return os.path.join(self.home(), 'realxdg', 'Trash')
         return p
@@ -413,7 +415,13 @@ class World(object):
         for r in REGIONS:
             os.makedirs(self.rpath(r), exist_ok=True)
         os.makedirs(self.home(), exist_ok=True)
-        if cfg['xdg'] == 'set' and conc.xdg_link:
+        if cfg.get('hlink', 'none') != 'none':
+            # $XDG_DATA_HOME is a symlink to a directory of another region: the home trash (not a link itself) then
+            # lives on that region's volume
+            remote = os.path.join(self.rpath(cfg['hlink']), '.xdg-remote')
+            os.makedirs(remote, exist_ok=True)
+            os.symlink(remote, os.path.join(self.home(), 'xdg'))
+        elif cfg['xdg'] == 'set' and conc.xdg_link:
             os.makedirs(os.path.join(self.home(), 'realxdg'), exist_ok=True)
             os.symlink('realxdg', os.path.join(self.home(), 'xdg'))
         os.makedirs(os.path.join(self.root, 'cwd'), exist_ok=True)
@@ -486,7 +494,9 @@ class World(object):
             self.slots[(t, s)] = ('item', i['o'])
         for x in sorted(st['orph'], key=lambda x: (x['t'], x['o'])):
             tp = os.fsencode(self.tpath(x['t']))
-            s = slot_for(x['t'], b'orphan-%d' % x['o'])
+            # a payload without info often carries the very name the next trash-put will want
+            rr = random.Random('orphslot|%s|%s' % (conc.variant_seed, x['o']))
+            s = slot_for(x['t'], conc.name(rr.choice(NAMES)) if rr.random() < 0.7 else b'orphan-%d' % x['o'])
             pb = tp + b'/files/' + s
             self.make_object(x['o'], kinds[x['o'] - 1], pb, in_trash=True)
             self.register(x['o'], pb)
